@@ -12,7 +12,7 @@
   * `pow` is exponentiation (`i32::pow` / `u32::pow` panic on overflow in a checked build: mathematical here).
   * `Range<i32>::clone` is the range; `Iterator::find` on such a (temporary) range is the first value of
     `start .. end` in ascending order that satisfies the predicate (`EG.irange` lists these values); the advanced
-    temporary is dropped.
+    temporary is dropped. `Iterator::find_map` on a range PLACE advances it (`range_i32_find_map`).
   * `Option::map` is `Option.map`.
   Every definition is an `abbrev` (see the note in RectSrcPrelude). Import-free apart from EG.Basic / EG.Model.
 -/
@@ -45,6 +45,18 @@ abbrev u64_ge (a b : Nat) : Bool := decide (a ≥ b)
 abbrev range_i32_clone (r : RangeI32) : RangeI32 := r
 /-- `Iterator::find` on a temporary `Range<i32>`: the first value of `start..end` satisfying `f`. -/
 abbrev range_i32_find (r : RangeI32) (f : Int → Bool) : Option Int := (irange r.start r.end_).find? f
+/-- The loop of `Iterator::find_map` on a `Range<i32>` whose `n` remaining values start at `s`: take the next value,
+return the first `Some` of `f` (the range stays advanced past that value), go on otherwise. -/
+def range_i32_find_map_loop {β : Type} (f : Int → Option β) : Nat → Int → Int → Option β × RangeI32
+  | 0, s, e => (none, ⟨s, e⟩)
+  | n + 1, s, e =>
+    match f s with
+    | some v => (some v, ⟨s + 1, e⟩)
+    | none => range_i32_find_map_loop f n (s + 1) e
+/-- `Iterator::find_map` on a `Range<i32>` place (a method that advances its receiver: value and updated receiver).
+An empty range (`!(start < end)`) is left as it is. -/
+abbrev range_i32_find_map {β : Type} (r : RangeI32) (f : Int → Option β) : Option β × RangeI32 :=
+  if r.start < r.end_ then range_i32_find_map_loop f (r.end_ - r.start).toNat r.start r.end_ else (none, r)
 /-- `Option::map` -/
 abbrev option_map {α β : Type} (o : Option α) (f : α → β) : Option β := o.map f
 
